@@ -68,7 +68,7 @@ def classify_dec(ver, pfx, o1, o2, nka, method, has_cl):
 
 @harness(
     pre=pre_dec,
-    quick=dict(X=3, timeout=120, reach_timeout=150),
+    quick=dict(X=3, timeout=240, reach_timeout=150),
     thorough=dict(X=5, timeout=900, reach_timeout=90),
     nshards=dict(quick=6, thorough=10),
     reach=["close_found", "keepalive_found", "close_told"],
